@@ -623,6 +623,67 @@ LEGACY = [
     ("Into", "#[into(owned(i64, i128), ref(i8), ref_mut)] struct L10(i8);"),
 ]
 
+# items with SEVERAL attributes of the same derive that get merged (>= 3 distinct listed types / predicates in total):
+# a hash-ordered merge shows up across fresh processes
+MULTI_ATTR = [
+    ("Into", "#[into(i64, i128)] #[into(f64)] pub struct Ma1(i32);"),
+    ("Into", "#[into(owned(i64, i128, u64))] #[into(ref(i32))] #[into(ref_mut(i32), owned(f64))] pub struct Ma2(i32);"),
+    ("Into", "#[into(i64)] #[into(i128)] #[into(f32)] #[into(f64)] pub struct Ma3(i16);"),
+    ("Into", "pub struct Ma4 { #[into(i64, i128)] #[into(f64, f32)] a: i32, #[into(skip)] b: u8 }"),
+    ("Into", "#[into(owned, ref)] #[into(ref_mut)] pub struct Ma5(i32, u8);"),
+    ("Into", "#[into((i64, u16), (i128, u32))] #[into((f64, u64))] pub struct Ma6(i32, u8);"),
+    ("From", "#[from(i8, i16)] #[from(u8, u16, u32)] pub struct Mf1(i64);"),
+    ("From", "pub enum Mf2 { #[from(i8, i16)] #[from(i32)] A(i64), #[from(u8)] #[from(u16, u32)] B(u64), #[from(ignore)] C(f32) }"),
+    ("From", "#[from((i8, u8), (i16, u16))] #[from((i32, u32))] pub struct Mf3(i64, u64);"),
+    ("From", "#[from(forward)] #[from(i8)] pub struct Mf4(i64);"),
+    ("AsRef", "pub struct Mr1 { #[as_ref(str, [u8])] #[as_ref(String)] a: String, b: u8 }"),
+    ("AsRef", "#[as_ref(i32)] #[as_ref(u8, u16)] pub struct Mr2(Wn);"),
+    ("AsMut", "pub struct Mr3 { #[as_mut(str)] #[as_mut(String, [u8])] a: String, b: u8 }"),
+    ("AsMut", "#[as_mut(i32, i64)] #[as_mut(u8)] pub struct Mr4(Wn);"),
+    ("Display", '#[display(bound(A: Clone, B: Copy))] #[display(bound(C: Default))] #[display("{a}")] pub struct Md1<A, B, C> { a: A, b: B, c: C }'),
+    ("Display", '#[display("{_0}")] #[display(bound(A: core::fmt::Display, B: Clone, C: Copy))] pub struct Md2<A, B, C>(A, B, C);'),
+    ("Display", '#[display(rename_all = "snake_case")] #[display(bound(A: Clone))] #[display(bound(B: Copy, C: Eq))] pub enum Md3<A, B, C> { FooBar(A), BazQux(B), Quux(C) }'),
+    ("Display", 'pub enum Md4<A, B> { #[display("{_0}")] #[display(bound(A: Clone, B: Copy))] X(A), #[display("y")] Y(B) }'),
+    ("UpperHex", '#[upper_hex(bound(A: Clone, B: Copy))] #[upper_hex(bound(C: Default))] #[upper_hex("{_0:X}")] pub struct Md5<A, B, C>(A, B, C);'),
+    ("Binary", '#[binary(bound(A: Clone))] #[binary(bound(B: Copy))] #[binary(bound(C: Eq))] #[binary("{_0:b}")] pub struct Md6<A, B, C>(A, B, C);'),
+    ("Debug", '#[debug(bound(A: Clone, B: Copy))] #[debug(bound(C: Default))] pub struct Mg1<A, B, C> { a: A, #[debug("{b:?}")] #[debug(skip)] b: B, c: C }'),
+    ("Debug", 'pub struct Mg2<A, B, C> { #[debug("{a:?}")] a: A, #[debug(skip)] b: B, #[debug("{}", 1)] c: C }'),
+    ("Debug", '#[debug(bound(A: Clone))] #[debug(bound(B: Copy))] #[debug(bound(C: Eq))] pub enum Mg3<A, B, C> { X(A), Y { b: B }, Z(C) }'),
+    ("Error", "pub struct Me1<A, B, C> { #[error(source)] #[error(not(backtrace))] a: A, #[error(not(source))] b: B, #[error(ignore)] c: C }"),
+    ("Error", "pub enum Me2<A, B, C> { #[error(ignore)] X(A), Y { #[error(source)] s: B, #[error(not(source))] #[error(not(backtrace))] t: C }, Z(#[error(source)] C, u8) }"),
+    ("TryFrom", "#[repr(u8)] #[repr(C)] #[try_from(repr)] pub enum Mt1 { A = 1, B, C = 7 }"),
+    ("TryFrom", "#[try_from(repr)] #[repr(i16)] #[repr(align(4))] pub enum Mt2 { A = -1, B, C }"),
+    ("TryFrom", "#[try_from(repr)] #[try_from(repr)] #[repr(u32)] pub enum Mt3 { A, B, C }"),
+    ("TryInto", "#[try_into(owned)] #[try_into(ref)] #[try_into(ref_mut)] pub enum Mi1 { A(i32), B(u8), C(i64), D(i32) }"),
+    ("TryInto", "#[try_into(owned, ref)] pub enum Mi2 { #[try_into(ignore)] A(i32), #[try_into(ref_mut)] #[try_into(owned)] B(u8), C(i64), D(f32) }"),
+    ("Unwrap", "#[unwrap(owned)] #[unwrap(ref)] #[unwrap(ref_mut)] pub enum Mu1 { A(i32), B(u8), C }"),
+    ("TryUnwrap", "#[try_unwrap(owned, ref)] #[try_unwrap(ref_mut)] pub enum Mu2 { A(i32), B(u8), C }"),
+    ("IntoIterator", "#[into_iterator(owned)] #[into_iterator(ref)] #[into_iterator(ref_mut)] pub struct Mn1(Vec<u8>);"),
+    ("Mul", "#[mul(forward)] #[mul(forward)] pub struct Mm1(i32);"),
+    ("Deref", "pub struct Mq1 { #[deref] #[deref(forward)] a: Box<u8>, b: u8 }"),
+    ("Index", "pub struct Mq2 { #[index] #[index] a: Vec<u8>, b: u8 }"),
+]
+
+
+def multi_attr_cases(rng, n):
+    """generated Into / From / AsRef items with 2-3 attributes carrying >= 3 distinct types in total"""
+    tys = ["i8", "i16", "i32", "i64", "i128", "u8", "u16", "u32", "u64", "u128", "f32", "f64", "isize", "usize"]
+    out = []
+    for k in range(n):
+        pick = rng.sample(tys, rng.randrange(3, 9))
+        cut = sorted(rng.sample(range(1, len(pick)), min(len(pick) - 1, rng.choice([1, 2]))))
+        parts = [pick[a:b] for a, b in zip([0] + cut, cut + [len(pick)])]
+        attrs = " ".join("#[{a}(%s)]" % ", ".join(p) for p in parts)
+        out.append(("Into", attrs.format(a="into") + " pub struct Mx%d(i8);" % k))
+        out.append(("Into", " ".join("#[into(%s(%s))]" % (rng.choice(["owned", "ref", "ref_mut"]), ", ".join(p)) for p in parts)
+                    + " pub struct My%d(i8);" % k))
+        out.append(("From", attrs.format(a="from") + " pub struct Mz%d(i128);" % k))
+        out.append(("From", "pub enum Mw%d { %s A(i128), B(bool) }" % (k, attrs.format(a="from"))))
+        out.append(("AsRef", "pub struct Mv%d { %s a: Wn, b: bool }" % (k, attrs.format(a="as_ref"))))
+        out.append(("AsMut", attrs.format(a="as_mut") + " pub struct Mu%d(Wn);" % k))
+    return out
+
+
 GENERIC_SHAPES = [
     "struct S1(i32);",
     "struct S2<T> { a: T, b: Vec<T>, c: u8 }",
@@ -662,6 +723,11 @@ def corpus(rng, tier, derives, table=None):
         shapes = GENERIC_SHAPES + (DISPLAY_SHAPES if d in ("Display", "Debug", "Binary", "Pointer", "LowerHex") else [])
         for it in shapes:
             cases.append((d, it, 0, "other"))
+    # several attributes of the same derive on one item / field / variant (merged by the macro)
+    feat0 = dict(table or [])
+    for d, it in MULTI_ATTR + multi_attr_cases(rng, 6 if tier == "quick" else 60):
+        if d in feat0 or not table:
+            cases.append((d, it, 3, class_of(d, feat0.get(d, d.lower()))))
     # items that end in diagnostics (legacy syntax, unknown parameters, wrong arity, unsupported shapes, duplicates)
     attrs = derive_attr_names()
     feat = dict(table or [])
